@@ -265,8 +265,27 @@ class Evaluator:
         params = [x.arg for x in m.args.args]
         return bool(self.call_function(m, {params[0]: a, params[1]: b}))
 
+    _BUILTIN_TYPES = {"tuple": tuple, "list": list, "str": str, "int": int, "dict": dict, "bool": bool,
+                      "float": float, "set": set}
+
+    def _isinstance(self, v, texpr) -> bool:
+        ts = texpr.elts if isinstance(texpr, ast.Tuple) else [texpr]
+        for t in ts:
+            nm = ast.unparse(t).split(".")[-1]
+            if nm in self._BUILTIN_TYPES:
+                if isinstance(v, self._BUILTIN_TYPES[nm]) and not (nm == "int" and isinstance(v, bool) and False):
+                    return True
+            elif nm == "Sequence":
+                if isinstance(v, (list, tuple, str)):
+                    return True
+            elif isinstance(v, Obj) and v._cls == nm:
+                return True
+        return False
+
     def call(self, e: ast.Call, env):
         f = e.func
+        if isinstance(f, ast.Name) and f.id == "isinstance" and len(e.args) == 2:
+            return self._isinstance(self.expr(e.args[0], env), e.args[1])
         args = [self.expr(a, env) for a in e.args]
         if isinstance(f, ast.Name):
             n = f.id
@@ -323,7 +342,33 @@ class Evaluator:
             raise Unsupported(f"call {n}")
         if isinstance(f, ast.Attribute):
             base = self.expr(f.value, env)
-            if isinstance(base, str) and f.attr in ("upper", "lower", "startswith", "endswith", "replace", "count", "strip"):
+            if isinstance(base, str) and f.attr in ("upper", "lower", "startswith", "endswith", "replace", "count",
+                                                     "strip", "join"):
                 return getattr(base, f.attr)(*args)
+            if isinstance(base, Obj) and (base._cls, f.attr) in self.methods and self._call_depth < 4:
+                m = self.methods[(base._cls, f.attr)]
+                params = [a.arg for a in m.args.posonlyargs + m.args.args]
+                kwonly = [a.arg for a in m.args.kwonlyargs]
+                bound = {params[0]: base}
+                for name, val in zip(params[1:], args):
+                    bound[name] = val
+                for k in e.keywords:
+                    if k.arg is None:
+                        raise Unsupported("**kwargs")
+                    bound[k.arg] = self.expr(k.value, env)
+                defaults = m.args.defaults
+                for name, d in zip(params[len(params) - len(defaults):], defaults):
+                    if name not in bound:
+                        bound[name] = self.expr(d, {})
+                for name, d in zip(kwonly, m.args.kw_defaults):
+                    if name not in bound and d is not None:
+                        bound[name] = self.expr(d, {})
+                if set(bound) != set(params + kwonly):
+                    raise Unsupported(f"binding of {f.attr}")
+                self._call_depth += 1
+                try:
+                    return self.call_function(m, bound)
+                finally:
+                    self._call_depth -= 1
             raise Unsupported(f"method {f.attr}")
         raise Unsupported("call")
